@@ -814,3 +814,9 @@ get_heart_beats ()
   return arr;
 }
 #endif
+
+#ifdef NEOLITH_VERIF
+/* verification hook: run exactly one timer tick (the static call_heart_beat) from a test harness */
+void verif_tick (void);
+void verif_tick (void) { call_heart_beat (); }
+#endif
